@@ -40,6 +40,62 @@ def _isnum(a):
     return z3.is_rational_value(a) or z3.is_int_value(a)
 
 
+def _monomial(t):
+    """t = coef * prod(f^(+-1)): returns (Fraction coef, [(factor term, inverted?)]) through nested products,
+    quotients and negations.  x/y is read as x*inv(y) (z3's x/0 is thereby tied to x*inv(0): division by zero is
+    outside the model, see the assumption list)."""
+    from fractions import Fraction
+    coef, factors, stack = Fraction(1), [], [(t, False)]
+    while stack:
+        x, inv = stack.pop()
+        k = x.decl().kind() if z3.is_app(x) else None
+        if k == z3.Z3_OP_MUL:
+            stack.extend((c, inv) for c in x.children())
+        elif k == z3.Z3_OP_DIV and x.sort() == z3.RealSort():
+            stack.append((x.arg(0), inv))
+            stack.append((x.arg(1), not inv))
+        elif z3.is_rational_value(x) or z3.is_int_value(x):
+            v = Fraction(x.numerator_as_long(), x.denominator_as_long()) if z3.is_rational_value(x) else Fraction(x.as_long())
+            if inv:
+                if v == 0:
+                    factors.append((x, True))
+                else:
+                    coef /= v
+            else:
+                coef *= v
+        elif k == z3.Z3_OP_TO_REAL and z3.is_int_value(x.arg(0)) and not (inv and x.arg(0).as_long() == 0):
+            v = Fraction(x.arg(0).as_long())
+            coef = coef / v if inv else coef * v
+        elif k == z3.Z3_OP_UMINUS:
+            coef = -coef
+            stack.append((x.arg(0), inv))
+        else:
+            factors.append((x, inv))
+    return coef, factors
+
+
+_invU = z3.Function("inv$u", z3.RealSort(), z3.RealSort())
+
+
+def _build_monomial(t, coef, factors, args, ch):
+    if len(factors) >= 2 or any(inv for f, inv in factors):
+        rest = []
+        for f, inv in factors:
+            a = abstract_nl(f)
+            rest.append(_invU(a) if inv else a)
+        rest.sort(key=lambda a: a.sexpr())
+        f = _mulU if t.sort() == z3.RealSort() else _mulI
+        acc = rest[0]
+        for a in rest[1:]:
+            acc = f(acc, a)
+        if coef == 1:
+            return acc
+        return (z3.RealVal(str(coef)) if t.sort() == z3.RealSort() else z3.IntVal(int(coef))) * acc
+    if all(a.eq(b) for a, b in zip(args, ch)):
+        return t
+    return t.decl()(*args)
+
+
 def abstract_nl(t):
     k = t.get_id()
     if k in _abs_cache:
@@ -61,23 +117,13 @@ def abstract_nl(t):
         args = [abstract_nl(a) for a in ch]
         kind = t.decl().kind()
         if kind == z3.Z3_OP_MUL:
-            nums = [a for a in args if _isnum(a)]
-            rest = [a for a in args if not _isnum(a)]
-            if len(rest) >= 2:
-                rest.sort(key=lambda a: a.sexpr())
-                f = _mulU if t.sort() == z3.RealSort() else _mulI
-                acc = rest[0]
-                for a in rest[1:]:
-                    acc = f(acc, a)
-                r = acc
-                for c in nums:
-                    r = c * r
-            elif all(a.eq(b) for a, b in zip(args, ch)):
-                r = t
-            else:
-                r = t.decl()(*args)
-        elif kind == z3.Z3_OP_DIV and not _isnum(args[1]):
-            r = _divU(args[0], args[1])
+            # canonical monomial: numeric coefficient times the sorted list of non-numeric factors, collected
+            # through nested products and divisions by numerals
+            coef, factors = _monomial(t)
+            r = _build_monomial(t, coef, factors, args, ch)
+        elif kind == z3.Z3_OP_DIV and t.sort() == z3.RealSort() and not _isnum(ch[1]):
+            coef, factors = _monomial(t)
+            r = _build_monomial(t, coef, factors, args, ch)
         elif all(a.eq(b) for a, b in zip(args, ch)):
             r = t
         else:
@@ -85,6 +131,39 @@ def abstract_nl(t):
     else:
         r = t
     _abs_cache[k] = r
+    _keep.append(t)
+    return r
+
+
+_strip_cache = {}
+
+
+def strip_blk(t):
+    """remove the naming wrapper val$(x) -> x (its defining instance is val$(x) == x) for the exact stages"""
+    k = t.get_id()
+    if k in _strip_cache:
+        return _strip_cache[k]
+    if z3.is_quantifier(t):
+        body = strip_blk(t.body())
+        if body.eq(t.body()):
+            r = t
+        else:
+            n = t.num_vars()
+            vs = [z3.Const("%s" % t.var_name(i), t.var_sort(i)) for i in range(n)]
+            inst = z3.substitute_vars(body, *reversed(vs))
+            r = z3.Lambda(vs, inst) if t.is_lambda() else (z3.ForAll if t.is_forall() else z3.Exists)(vs, inst)
+    elif z3.is_app(t):
+        ch = t.children()
+        args = [strip_blk(a) for a in ch]
+        if t.decl().name() == "val$" and len(args) == 1:
+            r = args[0]
+        elif all(a.eq(b) for a, b in zip(args, ch)):
+            r = t
+        else:
+            r = t.decl()(*args)
+    else:
+        r = t
+    _strip_cache[k] = r
     _keep.append(t)
     return r
 
@@ -135,13 +214,34 @@ def _muls_of(t):
 
 
 def _comm_hyps(terms):
+    """ground AC instances for the abstracted products occurring in the query: commutativity of every product,
+    squares non-negative, and the two other associations of every three-factor product"""
     out, seen = [], set()
+
+    def comm(f, a, b):
+        k = (a.get_id(), b.get_id())
+        if k in seen or (b.get_id(), a.get_id()) in seen:
+            return
+        seen.add(k)
+        if a.eq(b):
+            out.append(f(a, a) >= 0)
+        else:
+            out.append(f(a, b) == f(b, a))
+
     for t in terms:
         for f, a, b in _muls_of(t):
-            k = (a.get_id(), b.get_id())
-            if k not in seen:
-                seen.add(k)
-                out.append(f(a, b) == f(b, a))
+            comm(f, a, b)
+            for x, y in ((a, b), (b, a)):
+                if z3.is_app(x) and x.num_args() == 2 and x.decl().eq(f):
+                    p, q = x.arg(0), x.arg(1)
+                    # (p*q)*y == (p*y)*q == (q*y)*p
+                    out.append(f(f(p, q), y) == f(f(p, y), q))
+                    out.append(f(f(p, q), y) == f(f(q, y), p))
+                    comm(f, p, y)
+                    comm(f, q, y)
+                    comm(f, f(p, y), q)
+                    comm(f, f(q, y), p)
+                    comm(f, f(p, q), y)
     return out
 
 
@@ -172,11 +272,12 @@ class Prepared:
 def prepare(o, facts=None):
     f = o.facts if getattr(o, "facts", None) is not None else facts
     p = Prepared()
-    p.hyps = list(f[:o.nfacts]) + [o.pc] + list(o.extra_hyps)
-    p.goal = o.goal
-    p.ahyps = [abstract_nl(h) for h in p.hyps]
-    p.agoal = abstract_nl(p.goal)
-    p.nl = any(not a.eq(h) for a, h in zip(p.ahyps, p.hyps)) or not p.agoal.eq(p.goal)
+    raw = list(f[:o.nfacts]) + [o.pc] + list(o.extra_hyps)
+    p.ahyps = [abstract_nl(h) for h in raw]
+    p.agoal = abstract_nl(o.goal)
+    p.hyps = [strip_blk(h) for h in raw]
+    p.goal = strip_blk(o.goal)
+    p.nl = any(not a.eq(h) for a, h in zip(p.ahyps, raw)) or not p.agoal.eq(o.goal)
     p.qf_idx = [i for i, h in enumerate(p.hyps) if not _has_quant(h)]
     return p
 
@@ -204,6 +305,8 @@ def _solve_prepared(p, rlimit, wall_ms, fallbacks):
             stages.append(("qf-hyps", [p.hyps[i] for i in p.qf_idx], p.goal, short))
     if p.nl:
         stages.append(("nl-abstraction", p.ahyps + _comm_hyps(p.ahyps + [p.agoal]), p.agoal, short))
+    if p.nl and len(p.qf_idx) < len(p.hyps):
+        stages.append(("qf-hyps", [p.hyps[i] for i in p.qf_idx], p.goal, short))
     stages.append(("exact", p.hyps, p.goal, wall_ms))
     res, reason, backend = "unknown", "", "z3-5.1"
     for tag, hy, goal, ms in stages:
